@@ -657,7 +657,8 @@ def _run_reject(case, ctx, rs):
                     return np.asarray(smp.get_samples().samples, dtype=float).ravel()[1:]
                 smp = cuqi.sampler.Conjugate(target)
                 return np.array([float(np.asarray(smp.step(np.array([1.0]))).ravel()[0]), float(np.asarray(smp.step(np.array([4.2]))).ravel()[0])])
-            kind, val = core.outcome(go)
+            # rejection of an unsupported structure: any exception type counts as a rejection here
+            kind, val = core.outcome(go, refusal=core.REFUSAL_TYPES_BROAD)
             recs = [r for r in mon.take() if r["role"] == "conj" and r["target"] is target]
             if kind == "refused":
                 ctx.refused(f"{interface}", val)
